@@ -1099,6 +1099,11 @@ func (s *Server) UpdateGCSafePoint(ctx context.Context, request *pdpb.UpdateGCSa
 		return &pdpb.UpdateGCSafePointResponse{Header: s.notBootstrappedHeader()}, nil
 	}
 
+	// The safe point must never go backwards: concurrent updates must not
+	// interleave between loading the old value and saving the new one.
+	s.gcSafePointLock.Lock()
+	defer s.gcSafePointLock.Unlock()
+
 	oldSafePoint, err := s.storage.LoadGCSafePoint()
 	if err != nil {
 		return nil, err
